@@ -18,7 +18,7 @@ for p,t in parts.items():
     open(p,'w').write(s[:-1]+"\n"+t+"\n}\n")
 PY
   else
-    T=src/lib.rs; grep -qi "module of .\?src/cpp.rs" "$1/README.agent.md" 2>/dev/null && T=src/cpp.rs
+    T=$(python3 -c "import json;print(json.load(open('$1/meta.json')).get('demo_target','src/lib.rs'))")
     python3 - "$T" "$1/demo_test.rs" <<'PY'
 import sys
 p,d=sys.argv[1],sys.argv[2]
